@@ -81,7 +81,7 @@ func ConfigGen() *rapid.Generator[*Config] {
 func ImageGen(maxDim int, comps []int, pmin, pmax int, signed bool) *rapid.Generator[*gen.Image] {
 	return rapid.Custom(func(t *rapid.T) *gen.Image {
 		o := gen.ImageOpts{MaxDim: maxDim, MaxArea: maxDim * maxDim, Comps: comps, PMin: pmin, PMax: pmax, Signed: signed,
-			Classes: []string{"noise", "noise", "noise", "twolevel", "gradient", "extremes", "sparse", "constant"}, LiteralMax: 36}
+			Classes: []string{"noise", "noise", "noise", "twolevel", "gradient", "extremes", "sparse", "constant", "lpgain"}, LiteralMax: 36}
 		return gen.ImageGen(o).Draw(t, "img")
 	})
 }
